@@ -1462,24 +1462,31 @@ impl<'a, M: Matcher, W: WriteColor> StandardImpl<'a, M, W> {
     }
 
     fn write_binary_message(&self, offset: u64) -> io::Result<()> {
-        if self.sink.match_count == 0 {
-            return Ok(());
-        }
-
         let bin = self.searcher.binary_detection();
         if let Some(byte) = bin.quit_byte() {
+            // The search was cut short. Say so whenever something of this
+            // file has been printed already, which also happens without a
+            // match: context and --passthru lines come first.
+            let matched = self.sink.match_count > 0;
+            if !matched && self.wtr().borrow().count() == 0 {
+                return Ok(());
+            }
             if let Some(path) = self.path() {
                 self.write_path_hyperlink(path)?;
                 self.write(b": ")?;
             }
             let remainder = format!(
-                "WARNING: stopped searching binary file after match \
+                "WARNING: stopped searching binary file{} \
                  (found {:?} byte around offset {})\n",
+                if matched { " after match" } else { "" },
                 [byte].as_bstr(),
                 offset,
             );
             self.write(remainder.as_bytes())?;
         } else if let Some(byte) = bin.convert_byte() {
+            if self.sink.match_count == 0 {
+                return Ok(());
+            }
             if let Some(path) = self.path() {
                 self.write_path_hyperlink(path)?;
                 self.write(b": ")?;
